@@ -3,6 +3,7 @@ package props
 import (
 	"encoding/json"
 	"fmt"
+	"math"
 
 	"github.com/tidwall/geojson/geometry"
 
@@ -200,6 +201,9 @@ func c18Variants(c *mon.Ctx, s []exact.P, rotations bool) {
 }
 
 func c18Run(c *mon.Ctx) {
+	if c.Shard == 0 {
+		c18Rects(c)
+	}
 	type space struct{ k, maxLen int }
 	spaces := []space{{4, 5}}
 	if c.Thorough() {
@@ -356,6 +360,63 @@ func c18Replay(kind string, raw json.RawMessage) (bool, string) {
 	return bad, fmt.Sprintf("Convex=%v (want %v/%v) Clockwise=%v (want %v) NumSegments=%d", ring.Convex(), rawc, col, ring.Clockwise(), cw, ring.NumSegments())
 }
 
+// c18Rects: a geometry.Rect used as a series is the closed ring of its four
+// corners with the first repeated: five points, four segments, convex, not
+// clockwise, also when it has collapsed to a line or a single position.
+func c18Rects(c *mon.Ctx) {
+	vals := []float64{-3, -0.5, 0, 0, 1, 2, 2, 7.25, 1024}
+	for _, x0 := range vals {
+		for _, y0 := range vals {
+			for _, w := range []float64{0, 0, 1, 5.5} {
+				for _, h := range []float64{0, 0, 2, 0.25} {
+					rc := geometry.Rect{Min: geometry.Point{X: x0, Y: y0}, Max: geometry.Point{X: x0 + w, Y: y0 + h}}
+					c.SetCase(func() interface{} { return c18Case{What: "Rect as series", Got: fmt.Sprint(rc)} })
+					c.Try(func() {
+						var ser geometry.Series = rc
+						corners := []geometry.Point{rc.Min, {X: rc.Max.X, Y: rc.Min.Y}, rc.Max, {X: rc.Min.X, Y: rc.Max.Y}, rc.Min}
+						c.Eval()
+						c.Count("rect_series")
+						bad := func(what, got, want string) {
+							c.Violation("rect-series "+what, "a Rect read as a series does not follow the rule for a closed ring of its corners", c18Case{Closed: true, What: what + " of " + fmt.Sprint(rc), Got: got, Want: want})
+						}
+						if ser.NumPoints() != 5 {
+							bad("NumPoints", fmt.Sprint(ser.NumPoints()), "5")
+							return
+						}
+						if ser.NumSegments() != 4 {
+							bad("NumSegments", fmt.Sprint(ser.NumSegments()), "4")
+							return
+						}
+						for i := 0; i < 5; i++ {
+							if ser.PointAt(i) != corners[i] {
+								bad("PointAt", fmt.Sprint(i, ser.PointAt(i)), fmt.Sprint(corners[i]))
+							}
+						}
+						for i := 0; i < 4; i++ {
+							if sg := ser.SegmentAt(i); sg.A != corners[i] || sg.B != corners[i+1] {
+								bad("SegmentAt", fmt.Sprint(i, sg), fmt.Sprint(corners[i], corners[i+1]))
+							}
+						}
+						if !ser.Convex() || ser.Clockwise() {
+							bad("flags", fmt.Sprint("convex=", ser.Convex(), " clockwise=", ser.Clockwise()), "convex=true clockwise=false")
+						}
+						// the same answers as the ring built from the corner points
+						ring := geometry.NewPoly(corners, nil, nil).Exterior
+						if ring.NumSegments() != ser.NumSegments() || ring.Convex() != ser.Convex() || (w > 0 && h > 0 && ring.Clockwise() != ser.Clockwise()) {
+							bad("ring of the corners", fmt.Sprint(ser.NumSegments(), ser.Convex(), ser.Clockwise()), fmt.Sprint(ring.NumSegments(), ring.Convex(), ring.Clockwise()))
+						}
+						n := 0
+						ser.Search(geometry.Rect{Min: geometry.Point{X: math.Inf(-1), Y: math.Inf(-1)}, Max: geometry.Point{X: math.Inf(1), Y: math.Inf(1)}}, func(geometry.Segment, int) bool { n++; return true })
+						if n != 4 {
+							bad("Search(everything)", fmt.Sprint(n, " segments"), "4 segments")
+						}
+					})
+				}
+			}
+		}
+	}
+}
+
 func init() {
 	mon.Register(&mon.Prop{
 		ID:          "C18",
@@ -363,7 +424,7 @@ func init() {
 		Assumptions: []string{"coordinates in the exact domain", "where consecutive duplicate vertices make 'turn' ambiguous the flag may follow either the raw-triple or the duplicates-collapsed reading (counted as convex_ambiguous_duplicates, not asserted strictly)"},
 		Exhaustive:  func(string) bool { return true },
 		Run:         c18Run,
-		MustSee:     []string{"lattice_done", "convex_strict", "concave_seen", "random_rings", "fine_encodings", "moved_rings"},
+		MustSee:     []string{"rect_series", "lattice_done", "convex_strict", "concave_seen", "random_rings", "fine_encodings", "moved_rings"},
 		Replay:      c18Replay,
 	})
 }
